@@ -65,6 +65,7 @@ type FuncCtx struct {
 	NoPanic   bool
 	NoOvf     bool
 	Entry     *State
+	ResultAlias []string // result names of the function-field contract this closure implements
 	Params    map[string]Value // entry values by name
 	ParamT    map[string]types.Type
 	Results   map[string]Value
